@@ -19,7 +19,7 @@ RULE = ('alphabet A={a,A,b,1,-,_,e-acute,E-acute}; X in A^<=n as a literal '
 RULE += (
          ' Plus `debuglog`: the role table for 1-letter and two 2-letter'
          ' names again with every oslo_policy logger at DEBUG.'
-         ' Plus punct: names <= 3 over {a,B,colon,dot,slash,at} literally'
+         ' Plus punct: names <= 3 over {a,B,colon,dot,slash,at} (and 8 names holding an opening parenthesis) literally'
          ' and through a placeholder against near-miss role lists.')
 ASSUMPTIONS = ['alphabet restricted to characters with one-to-one case maps '
                '(as the property states)']
@@ -260,6 +260,9 @@ def run(job, seed):
         ws = ['']
         for k in range(1, 4):
             ws.extend(''.join(p) for p in itertools.product(P2, repeat=k))
+        # an opening parenthesis inside or at the END of a name is part of the
+        # name (only a leading '(' and trailing ')' are syntax)
+        ws += ['a(', 'B(', 'a((', 'a(B', 'a:(', 'a(:', '\u00e9(', 'a.(']
         near = {}
         for x in ws:
             near.setdefault(x.lower(), []).append(x)
